@@ -432,6 +432,24 @@ theorem named_site_segment (pol : Policy) (hp : pol.Sound) (pre : List Op) (ops 
 /-- the cache policy the code uses satisfies the hypothesis -/
 example : Policy.Sound lruPolicy := lruPolicy_sound
 
+/-- The only call of a printer that can panic inside `SourceWriter` is the file-index lookup `map[original_pos.file]`:
+    from any writer state, a call sequence runs to completion when there is no file mapper, or when every mapped call's
+    file is inside the mapper (what `FileMap` guarantees for the files of a generated document, `file_remap_in_range`). -/
+theorem printer_calls_do_not_panic (pol : Policy) (hp : pol.Sound) (ops : List POp) (st0 : WState)
+    (hfiles : FilesInMapper st0.mapper ops) : ∃ st, run pol st0 (ops.map POp.toOp) = some st :=
+  run_total pol hp ops st0 hfiles
+
+/-- the hypothesis is met without a mapper, and e.g. by a one-file mapper for positions in file 0 -/
+example : FilesInMapper none [POp.writeFor "a" ⟨3, 4, 7, false⟩ (some "a")] ∧
+    FilesInMapper (some [0]) [POp.writeFor "a" ⟨3, 4, 0, false⟩ (some "a")] := by
+  constructor
+  · intro m hm; cases hm
+  · intro m hm t q n hmem _
+    cases hm
+    simp only [List.mem_cons, List.not_mem_nil, or_false] at hmem
+    cases hmem
+    decide
+
 /-- END TO END for the schema declaration file: when the schema type printer's calls are run through the writer (after
     any prefix, e.g. the file-index mapper of the CLI), every type definition's name in the generated text — the text
     `<Name>` or `__tmp_<Name>` written by the declaration header — has a named segment whose original position is the
@@ -457,6 +475,21 @@ theorem schema_names_have_segments (pol : Policy) (hp : pol.Sound) (pre : List O
   · intro td htd hk f hf hraw hb hnl
     exact named_site_segment pol hp pre ops st0 st hpre h _ _ _
       (schema_input_field_site c doc ops hops td htd hk f hf hraw hb) hb hnl
+
+/-- non-vacuity of the run hypotheses: without a file mapper the writer never panics on a printer's calls, so the
+    premises hold for every document on which the printer succeeds (here: an input object with a field) -/
+example : ∃ ops st,
+    schemaOps {}
+      [.typeDef { kind := .input, name := "I", namePos := ⟨0, 6, 0, false⟩, pos := ⟨0, 0, 0, false⟩,
+                  inputs := [{ name := "x", pos := ⟨0, 10, 0, false⟩, ty := .named "I" ⟨0, 13, 0, false⟩ }] }] = .ok ops ∧
+    run lruPolicy WState.init [] = some WState.init ∧
+    run lruPolicy WState.init (ops.map POp.toOp) = some st := by
+  obtain ⟨st, h⟩ := run_total lruPolicy lruPolicy_sound
+    (match schemaOps {}
+      [.typeDef { kind := .input, name := "I", namePos := ⟨0, 6, 0, false⟩, pos := ⟨0, 0, 0, false⟩,
+                  inputs := [{ name := "x", pos := ⟨0, 10, 0, false⟩, ty := .named "I" ⟨0, 13, 0, false⟩ }] }] with
+     | .ok ops => ops | .error _ => []) WState.init (by intro m hm; cases hm)
+  exact ⟨_, st, rfl, rfl, h⟩
 
 /-- END TO END for the resolvers declaration file (no plugins): every non-input type definition's name and every object
     field's name in the generated text has a named segment whose original position is its name token. -/
